@@ -349,12 +349,17 @@ func C10(c *Ctx) {
 				bad = append(bad, o.Name)
 			case o.Root == "props" && o.Depth == 0:
 				bad = append(bad, o.Name)
+			case o.Root == "interp" && o.Depth >= 1:
+				// what the interpreter itself holds is shared by every
+				// execution it runs: a container of it in the runtime's reach
+				// is a place where one execution's writes meet another's
+				bad = append(bad, o.Name+" (held by the interpreter: shared by every execution)")
 			}
 		}
 		sort.Strings(bad)
 		c.R.Check(len(bad) == 0, "C10-R2", key, c.pos(e.Instr),
 			fmt.Sprintf("%d objects reachable from the value; none is the caller's bindings (any depth) or props map", len(reach)),
-			"value handed to the script runtime can reach caller-owned data: "+strings.Join(bad, ", "))
+			"value handed to the script runtime can reach data that outlives the execution: "+strings.Join(bad, ", "))
 	}
 	// R3
 	c.reportEffects("C10-R3", a, nil)
